@@ -66,6 +66,34 @@ def gen_history(rng):
     return "; ".join(ops)
 
 
+# ---- the process-wide shared objects (`true` / `false` / void singletons, results of built-in comparisons): scripts of one engine that try to change
+# them or to hang attributes on them, and what ANOTHER engine (coexisting, created later, on another thread) then answers.
+ATTACKS = ["def clr(f) { f := false }; clr(1 == 1)", "def clr(f) { f := false }; clr(true)", "def st(f) { f := true }; st(1 == 2); st(false)",
+           "var &r = true; r := false", "var &r = (2 == 2); r = false", "var &r = true; r = false", "(1 == 1) = false", "true = false", "true := false", "false := true",
+           "def setf(f) { f = false }; setf(true); setf(2 > 1)", "`=`(true, false)", "`:=`(true, false)", "`:=`(1 < 2, false)", "var t = true; t := false; t = false",
+           "var vv = [1]; vv.clear() := 5", "def vd(x) { x := 7 }; var vv = [1]; vd(vv.clear())", "for (var i = 0; i < 3; ++i) { (i < 5) := false }",
+           "var c = true; var &d = c; d := false; `:=`(c, 1 == 2)", "def g(x) { return x }; g(true) := false", "[true][0] := false", "var m = [\"a\": true]; m[\"a\"] := false",
+           "true.clone() := false", "auto &w = !false; w := false"]
+ATTR_ATTACKS = ["get_var_attr(true, \"ATTR\") = 5", "get_var_attr(false, \"ATTR\") = 5", "get_var_attr(1 < 2, \"ATTR\") = 7", "var vv = [1]; get_var_attr(vv.clear(), \"ATTR\") = 9"]
+
+
+def shared_object_histories(rng, n, attacks):
+    hs = []
+    for _ in range(n):
+        slot_a = rng.choice([0, 9])
+        ops = ["new A %d %d" % (slot_a, rng.below(4)), "new B %d %d" % (rng.choice([1, 9]), rng.below(4)), "probe %d B" % rng.below(4)]
+        for _ in range(rng.range(1, 4)):
+            ops.append("script %d A %s" % (rng.below(4), rng.choice(attacks).encode().hex()))
+        ops.append("probe %d B" % rng.below(4))
+        deleted = rng.chance(1, 2)
+        if deleted:
+            ops.append("del A %d" % rng.below(3))
+        # (a pool slot holds one engine at a time: C takes A's address only when A is gone)
+        ops += ["new C %d %d" % (rng.choice([slot_a, 2, 9]) if deleted else rng.choice([2, 9]), rng.below(4)), "probe %d C" % rng.below(4), "probe %d B" % rng.below(4)]
+        hs.append("; ".join(ops))
+    return hs
+
+
 def run(ctx):
     status, text, rc = C.lean_obligations(ctx, ["C14"])
     have_driver = (rc == 0 and os.path.exists(C.driver_path())) or C.ensure_driver(ctx, [])
@@ -88,6 +116,35 @@ def run(ctx):
     ctx.cov["harness_restarts"] = restarts
     found = C.compare_streams(ctx, "engines", hs, mout, iout, nontrivial=lambda impl, line: "del" in line and line.count("new") >= 2,
                               bucket=lambda line: "engines=%d" % min(line.count("new "), 5))
+    # shared objects: first the attacks the language refuses (one process: a success would show in every later probe), then — in a process of its own,
+    # because its effect is process-wide — the attribute attack that is the known finding SHARED_CONSTANT_ATTRIBUTES
+    sh = shared_object_histories(rng, 300 if thorough else 40, ATTACKS)
+    with ctx.timer("impl"):
+        base, _ = C.run_harness_resilient(exe, [], ["new Z 9 0; probe 0 Z"], timeout=300, stall=120)
+        so, _ = C.run_harness_resilient(exe, [], sh, timeout=1200, stall=120)
+    base = base[0] if base else "missing"
+    ctx.cov["shared_object_probe"] = base
+    ctx.count("evaluations", len(sh))
+    nbad = 0
+    for h, o in zip(sh, so):
+        probes = [x for x in o.split(",") if "|" in x or x in ("noengine",)]
+        ctx.hist("attack_outcomes", ",".join(sorted(set(x for x in o.split(",") if "|" not in x))))
+        if len(probes) != 4 or any(p != base for p in probes):
+            nbad += 1
+            found += 1
+            if nbad <= 3:
+                ctx.violation("history", {"mode": "engines", "history": h, "scripts": [bytes.fromhex(w.split(" ")[-1]).decode() for w in h.split("; ") if w.startswith("script")],
+                                          "observed": o, "expected": "every probe of the other engines answers like a fresh engine in a fresh process: " + base})
+    ah = shared_object_histories(rng, 6, ATTR_ATTACKS)
+    with ctx.timer("impl"):
+        ao, _ = C.run_harness_resilient(exe, [], ah, timeout=300, stall=120)
+    for h, o in zip(ah, ao):
+        probes = [x for x in o.split(",") if "|" in x]
+        if any(p != base for p in probes):
+            if not ctx.known_finding("SHARED_CONSTANT_ATTRIBUTES", h):
+                found += 1
+                ctx.violation("history", {"mode": "engines", "history": h, "observed": o, "expected": base})
+            break
     ctx.cov["rule"] = ("%d generated histories (6-40 operations + a final read-back on every thread); non-trivial = at least two engines and one destruction; distinct = distinct histories" % n)
     ctx.sample(hs[-1][:500])
     ctx.sample(hs[0][:300])
